@@ -175,13 +175,17 @@ func (h *hookRec) BeforeParse(b []byte) {
 	h.mu.Unlock()
 }
 
-func parseScript(s string) (evs []readEv, writeFails bool) {
+func parseScript(s string) (evs []readEv, writeFails bool, preCancel bool) {
 	if s == "-" {
-		return nil, false
+		return nil, false, false
 	}
 	for i, t := range strings.Split(s, ";") {
 		if i == 0 && t == "w" {
 			writeFails = true
+			continue
+		}
+		if t == "pc" && len(evs) == 0 && !preCancel {
+			preCancel = true
 			continue
 		}
 		switch {
@@ -239,9 +243,12 @@ func clientErrStr(err error) string {
 
 // runDo performs one call; returns outcome, hook log and the reads the transport served
 func runDo(kind string, hooks bool, flusher string, reqSpec string, script string) (string, string, string) {
-	evs, writeFails := parseScript(script)
+	evs, writeFails, preCancel := parseScript(script)
 	ctx, cancel := context.WithCancel(context.Background())
 	defer cancel()
+	if preCancel {
+		cancel()
+	}
 	conn := &scriptedConn{script: evs, writeFails: writeFails, cancel: cancel, serial: kind == "s"}
 	rec := &hookRec{}
 	notConnected := strings.HasPrefix(reqSpec, "nc:")
